@@ -42,7 +42,7 @@ def run(ck):
         decide(ck, arts)
         ck.sample({"text": rp["text"], "violations": len(ck.violations)})
         return ck.finish()
-    consts = {"K": 3, "MaxDecls": 3 if quick else 4, "MaxExtra": 2 if quick else 3}
+    consts = {"K": 3, "MaxDecls": 3 if quick else 4, "MaxExtra": 2}
     g = ck.tlc("SpecPoolGen", constants=consts, workers=4, count=False, timeout=2400)
     if "GENERATED" not in g.out:
         raise vp.Infra("SpecPoolGen failed:\n" + g.out[-2000:])
